@@ -244,6 +244,7 @@ func (mem *Mempool) RemoveTxs(hashList *types.TxHashList) error {
 	mem.proxyMtx.Lock()
 	defer mem.proxyMtx.Unlock()
 	mem.removeTxs(hashList.Hashes)
+	mem.verifEvent("remove", nil, nil, hashList.Hashes, nil)
 	return nil
 }
 
@@ -262,6 +263,7 @@ func (mem *Mempool) PushTx(tx *types.Transaction) error {
 	mem.proxyMtx.Lock()
 	defer mem.proxyMtx.Unlock()
 	err := mem.cache.Push(tx)
+	mem.verifEvent("push", tx, nil, nil, err)
 	return err
 }
 
@@ -356,6 +358,7 @@ func (mem *Mempool) removeExpired() {
 	types.AssertConfig(mem.client)
 	//mempool的header是当前高度，而交易将被下一个区块打包，过期判定采用下一个区块的高度和时间
 	mem.cache.removeExpiredTx(mem.client.GetConfig(), mem.header.GetHeight()+1, mem.header.GetBlockTime())
+	mem.verifEvent("sweep", nil, nil, nil, nil)
 }
 
 // removeBlockedTxs 每隔1分钟清理一次已打包的交易
@@ -389,6 +392,7 @@ func (mem *Mempool) RemoveTxsOfBlock(block *types.Block) bool {
 			mem.cache.Remove(string(hash))
 		}
 	}
+	mem.verifEvent("rmblock", nil, block, nil, nil)
 	return true
 }
 func (mem *Mempool) getCacheFeeRate() int64 {
